@@ -308,12 +308,76 @@ package sbom
 //@   assigns \nothing
 
 //@ func NodeList.NodeSiblings
-//@   props C11
+//@   props C11, C15
 //@   assigns \nothing
+//@   requires validNL(nl)
+//@   ensures [C15:siblings:nil] id == "" ==> result == nil
+//@   ensures [C15:siblings:shape] result != nil ==> fresh(result) && validNL(result) && closedEdges(result) && normalisedNL(result)
+//@   ensures [C15:siblings:root] result != nil && (id in fieldset(nl.Nodes, Id)) ==> len(result.RootElements) == 1 && result.RootElements[0] == id && (id in fieldset(result.Nodes, Id))
+//@   ensures [C15:siblings:absent] result != nil && !(id in fieldset(nl.Nodes, Id)) ==> len(result.Nodes) == 0 && len(result.RootElements) == 0 && len(result.Edges) == 0
+//@   ensures [C15:siblings:complete] result != nil && (id in fieldset(nl.Nodes, Id)) ==> (forall r *Edge, j int :: (r in elems(nl.Edges)) && r.From == id && 0 <= j && j < len(r.To) && (r.To[j] in fieldset(nl.Nodes, Id)) ==> (r.To[j] in fieldset(result.Nodes, Id)))
+//@   ensures [C15:siblings:subset] result != nil ==> (forall a int :: 0 <= a && a < len(result.Nodes) ==> (result.Nodes[a] in elems(nl.Nodes)))
+//@   ensures [C15:siblings:unique] result != nil ==> (forall a int, b int :: 0 <= a && a < b && b < len(result.Nodes) ==> result.Nodes[a].Id != result.Nodes[b].Id)
+//@   invariant L0: [C15:inv] (forall k string :: (k in ni) ==> ni[k] != nil && ni[k].Id == k && (ni[k] in elems(nl.Nodes))) && (id in ni) && ni != nil && fresh(ni)
+//@   invariant L0: [C15:inv] !(nil in elems(nodelist.Edges)) && len(nodelist.Nodes) == 0 && len(nodelist.RootElements) == 1 && nodelist.RootElements[0] == id && allocated(arr(nodelist.RootElements))
+//@   invariant L0: [C15:inv] forall r *Edge, j int :: (r in elemsn(nl.Edges, _i)) && r.From == id && 0 <= j && j < len(r.To) && (r.To[j] in fieldset(nl.Nodes, Id)) ==> (r.To[j] in ni)
+//@   invariant L1: [C15:inv] (forall k string :: (k in ni) ==> ni[k] != nil && ni[k].Id == k && (ni[k] in elems(nl.Nodes))) && (id in ni) && ni != nil && fresh(ni)
+//@   invariant L1: [C15:inv] !(nil in elems(nodelist.Edges)) && len(nodelist.Nodes) == 0 && len(nodelist.RootElements) == 1 && nodelist.RootElements[0] == id && allocated(arr(nodelist.RootElements))
+//@   invariant L1: [C15:inv] forall r *Edge, j int :: (r in elemsn(nl.Edges, _i1)) && r.From == id && 0 <= j && j < len(r.To) && (r.To[j] in fieldset(nl.Nodes, Id)) ==> (r.To[j] in ni)
+//@   invariant L1: [C15:inv] r != nil && r.From == id && (forall j int :: 0 <= j && j < _i && (r.To[j] in fieldset(nl.Nodes, Id)) ==> (r.To[j] in ni))
+//@   invariant L2: [C15:inv] (forall k string :: (k in ni) ==> ni[k] != nil && ni[k].Id == k && (ni[k] in elems(nl.Nodes))) && (id in ni) && ni != nil && fresh(ni)
+//@   invariant L2: [C15:inv] !(nil in elems(nodelist.Edges)) && !(nil in elems(nodelist.Nodes)) && len(nodelist.RootElements) == 1 && nodelist.RootElements[0] == id
+//@   invariant L2: [C15:inv] forall r *Edge, j int :: (r in elems(nl.Edges)) && r.From == id && 0 <= j && j < len(r.To) && (r.To[j] in fieldset(nl.Nodes, Id)) ==> (r.To[j] in ni)
+//@   invariant L2: [C15:inv] (forall x string :: (x in fieldset(nodelist.Nodes, Id)) <==> (x in _V)) && (forall k string :: (k in _V) ==> (k in ni))
+//@   invariant L2: [C15:inv] (forall a int :: 0 <= a && a < len(nodelist.Nodes) ==> (nodelist.Nodes[a].Id in _V) && (nodelist.Nodes[a] in elems(nl.Nodes))) && (forall a int, b int :: 0 <= a && a < b && b < len(nodelist.Nodes) ==> nodelist.Nodes[a].Id != nodelist.Nodes[b].Id)
 
 //@ func NodeList.NodeDescendants
-//@   props C11
+//@   props C11, C15
 //@   assigns \nothing
+//@   requires validNL(nl)
+//@   ensures [C15:descendants:shape] result != nil && validNL(result) && closedEdges(result) && normalisedNL(result)
+//@   ensures [C15:descendants:rootsClosed] closedRoots(result)
+//@   ensures [C15:descendants:root] (id in fieldset(nl.Nodes, Id)) && maxDepth >= 1 ==> len(result.RootElements) == 1 && result.RootElements[0] == id && (id in fieldset(result.Nodes, Id))
+//@   ensures [C15:descendants:absent] !(id in fieldset(nl.Nodes, Id)) ==> len(result.Nodes) == 0 && len(result.RootElements) == 0 && len(result.Edges) == 0
+//@   ensures [C15:descendants:subset] forall a int :: 0 <= a && a < len(result.Nodes) ==> (result.Nodes[a] in elems(nl.Nodes))
+//@   ensures [C15:descendants:unique] forall a int, b int :: 0 <= a && a < b && b < len(result.Nodes) ==> result.Nodes[a].Id != result.Nodes[b].Id
+//@   invariant L0: [C15:inv] startNode != nil && startNode.Id == id && (startNode in elems(nl.Nodes)) && len(nl2.Nodes) == 0 && len(nl2.RootElements) == 1 && nl2.RootElements[0] == id && nl2.Edges == nl.Edges
+//@   invariant L0: [C15:inv] siblings != nil && fresh(siblings)
+//@   invariant L0: [C15:inv] forall k string :: (k in siblings) ==> siblings[k] != nil && siblings[k].Id == k && (siblings[k] in elems(nl.Nodes))
+//@   invariant L0: [C15:inv] forall a int :: 0 <= a && a < len(newLoopNodes) ==> newLoopNodes[a] != nil && (newLoopNodes[a] in elems(nl.Nodes))
+//@   invariant L1: [C15:inv] startNode != nil && startNode.Id == id && (startNode in elems(nl.Nodes)) && len(nl2.Nodes) == 0 && len(nl2.RootElements) == 1 && nl2.RootElements[0] == id && nl2.Edges == nl.Edges
+//@   invariant L1: [C15:inv] siblings != nil && fresh(siblings)
+//@   invariant L1: [C15:inv] forall k string :: (k in siblings) ==> siblings[k] != nil && siblings[k].Id == k && (siblings[k] in elems(nl.Nodes))
+//@   invariant L1: [C15:inv] forall a int :: 0 <= a && a < len(newLoopNodes) ==> newLoopNodes[a] != nil && (newLoopNodes[a] in elems(nl.Nodes))
+//@   invariant L1: [C15:inv] forall a int :: 0 <= a && a < len(loopNodes) ==> loopNodes[a] != nil && (loopNodes[a] in elems(nl.Nodes))
+//@   invariant L2: [C15:inv] startNode != nil && startNode.Id == id && (startNode in elems(nl.Nodes)) && len(nl2.Nodes) == 0 && len(nl2.RootElements) == 1 && nl2.RootElements[0] == id && nl2.Edges == nl.Edges
+//@   invariant L2: [C15:inv] siblings != nil && fresh(siblings)
+//@   invariant L2: [C15:inv] forall k string :: (k in siblings) ==> siblings[k] != nil && siblings[k].Id == k && (siblings[k] in elems(nl.Nodes))
+//@   invariant L2: [C15:inv] forall a int :: 0 <= a && a < len(newLoopNodes) ==> newLoopNodes[a] != nil && (newLoopNodes[a] in elems(nl.Nodes))
+//@   invariant L2: [C15:inv] forall a int :: 0 <= a && a < len(loopNodes) ==> loopNodes[a] != nil && (loopNodes[a] in elems(nl.Nodes))
+//@   invariant L3: [C15:inv] startNode != nil && startNode.Id == id && (startNode in elems(nl.Nodes)) && len(nl2.Nodes) == 0 && len(nl2.RootElements) == 1 && nl2.RootElements[0] == id && nl2.Edges == nl.Edges
+//@   invariant L3: [C15:inv] siblings != nil && fresh(siblings)
+//@   invariant L3: [C15:inv] forall k string :: (k in siblings) ==> siblings[k] != nil && siblings[k].Id == k && (siblings[k] in elems(nl.Nodes))
+//@   invariant L3: [C15:inv] forall a int :: 0 <= a && a < len(newLoopNodes) ==> newLoopNodes[a] != nil && (newLoopNodes[a] in elems(nl.Nodes))
+//@   invariant L3: [C15:inv] forall a int :: 0 <= a && a < len(loopNodes) ==> loopNodes[a] != nil && (loopNodes[a] in elems(nl.Nodes))
+//@   invariant L4: [C15:inv] startNode != nil && startNode.Id == id && (startNode in elems(nl.Nodes)) && len(nl2.Nodes) == 0 && len(nl2.RootElements) == 1 && nl2.RootElements[0] == id && nl2.Edges == nl.Edges
+//@   invariant L4: [C15:inv] siblings != nil && fresh(siblings)
+//@   invariant L4: [C15:inv] forall k string :: (k in siblings) ==> siblings[k] != nil && siblings[k].Id == k && (siblings[k] in elems(nl.Nodes))
+//@   invariant L4: [C15:inv] forall a int :: 0 <= a && a < len(newLoopNodes) ==> newLoopNodes[a] != nil && (newLoopNodes[a] in elems(nl.Nodes))
+//@   invariant L4: [C15:inv] forall a int :: 0 <= a && a < len(loopNodes) ==> loopNodes[a] != nil && (loopNodes[a] in elems(nl.Nodes))
+//@   invariant L0: [C15:inv] i >= 1 ==> (id in siblings)
+//@   invariant L1: [C15:inv] (i >= 1 || _i >= 1) ==> (id in siblings)
+//@   invariant L1: [C15:inv] (i == 0 && _i == 0) ==> len(loopNodes) == 1 && loopNodes[0] == startNode
+//@   invariant L2: [C15:inv] id in siblings
+//@   invariant L3: [C15:inv] id in siblings
+//@   invariant L4: [C15:inv] id in siblings
+//@   invariant L5: [C15:inv] siblings != nil && fresh(siblings)
+//@   invariant L5: [C15:inv] forall k string :: (k in siblings) ==> siblings[k] != nil && siblings[k].Id == k && (siblings[k] in elems(nl.Nodes))
+//@   invariant L5: [C15:inv] startNode != nil && startNode.Id == id && len(nl2.RootElements) == 1 && nl2.RootElements[0] == id && nl2.Edges == nl.Edges && (maxDepth >= 1 ==> (id in siblings))
+//@   invariant L5: [C15:inv] (forall x string :: (x in fieldset(nl2.Nodes, Id)) <==> (x in _V)) && (forall k string :: (k in _V) ==> (k in siblings))
+//@   invariant L5: [C15:inv] forall a int :: 0 <= a && a < len(nl2.Nodes) ==> nl2.Nodes[a] != nil && (nl2.Nodes[a].Id in _V) && (nl2.Nodes[a] in elems(nl.Nodes))
+//@   invariant L5: [C15:inv] forall a int, b int :: 0 <= a && a < b && b < len(nl2.Nodes) ==> nl2.Nodes[a].Id != nl2.Nodes[b].Id
+//@   invariant L5: [C15:inv] !(nil in elems(nl2.Nodes))
 
 //@ func NodeList.indexConnectedNodes
 //@   props C11
